@@ -88,6 +88,8 @@ class HlRangeSpec:
         got = []
         for h in out:
             rr = models.deref(h.fields[0])
+            if not isinstance(rr, Agg):
+                bad.append('C19: a reported range is not a token range (it is computed from something else: %r)' % (rr,)); continue
             got.append((models.tsz(rr.fields[0]).z(), models.tsz(rr.fields[1]).z()))
         ev = None
         for (s, e) in got:
